@@ -5,7 +5,7 @@ mod inspect;
 mod print_diff;
 mod rule_overwrite;
 #[cfg(ast_grep_verif)]
-mod verif_sched;
+pub(crate) mod verif_sched;
 mod worker;
 
 pub use args::{ContextArgs, InputArgs, OutputArgs, OverwriteArgs};
